@@ -83,6 +83,8 @@ func (p *Parser) ParseAclCidr() (*ast.AclCidr, error) {
 	// If SLASH token is found on peek token, need to Parse CIDR mask bit
 	if p.PeekTokenIs(token.SLASH) {
 		p.NextToken() // point to SLASH
+		// comments before the slash belong to the IP
+		SwapLeadingTrailing(p.curToken, cidr.IP.Meta)
 		if !p.ExpectPeek(token.INT) {
 			return nil, errors.WithStack(UnexpectedToken(p.peekToken, token.INT))
 		}
@@ -535,6 +537,8 @@ func (p *Parser) ParseSubroutineDeclaration() (*ast.SubroutineDeclaration, error
 
 			if p.PeekTokenIs(token.COMMA) {
 				p.NextToken()
+				// comments before the comma belong to the preceding parameter
+				SwapLeadingTrailing(p.curToken, paramName.Meta)
 			} else if !p.PeekTokenIs(token.RIGHT_PAREN) {
 				return nil, errors.WithStack(UnexpectedToken(p.peekToken, "COMMA or RIGHT_PAREN"))
 			}
@@ -542,6 +546,12 @@ func (p *Parser) ParseSubroutineDeclaration() (*ast.SubroutineDeclaration, error
 
 		if !p.ExpectPeek(token.RIGHT_PAREN) {
 			return nil, errors.WithStack(UnexpectedToken(p.peekToken, "RIGHT_PAREN"))
+		}
+		// comments before the right parenthesis belong to the last parameter, or to the subroutine name
+		if len(s.Parameters) > 0 {
+			SwapLeadingTrailing(p.curToken, s.Parameters[len(s.Parameters)-1].Name.Meta)
+		} else {
+			SwapLeadingTrailing(p.curToken, s.Name.Meta)
 		}
 	}
 
